@@ -21,7 +21,10 @@ RULES = {
     "  and does not iterate the call's arguments (nor does a module helper it calls)",
     "R4": "completed operations only: journal.record is dominated by the normal return of the original call",
     "R5": "no strong references: Journal.record hands the object to JournalEntry only as weakref/id/class; "
-    "every details value is a string-building expression or None",
+    "every details value is a string-building expression or None"
+    " ; no field of JournalEntry is declared with a frame-bearing type (FrameInfo, FrameType, traceback, exception), and the values record() hands to the "
+    "entry reach - through locals and the module's helpers - no call that returns live frames (inspect.stack / currentframe, sys._getframe, sys.exc_info, "
+    "traceback.walk_stack): a frame keeps its locals, hence the callers' IR objects, alive for as long as the journal exists",
     "R6": "entries stay weak (shared rule S8): no memoised callable (lru_cache/cache/cached_property) of the journaling "
     "package dereferences a weak reference or reads changeable state - a cached referent is a strong reference held by the "
     "entry, and it answers `alive` after the object should have been collected",
@@ -33,6 +36,9 @@ RULES = {
     "the hooks - there is no return before the append and no test that drops an entry (a filter such as 'same object, operation "
     "and details as the last entry' silently merges genuine repetitions: `g.outputs.clear()` twice is two operations)",
 }
+_FRAME_TYPES = ("FrameInfo", "FrameType", "TracebackType", "Traceback", "BaseException", "Exception")
+_FRAME_CALLS = {"inspect.stack", "inspect.currentframe", "inspect.getouterframes", "inspect.getinnerframes", "inspect.trace", "sys._getframe", "sys.exc_info",
+                "traceback.walk_stack", "traceback.walk_tb", "sys.exception"}
 FLOORS = {"R1": 43, "R2": 4, "R3": 40, "R4": 4, "R5": 40, "R6": 2, "R7": 1, "R8": 2}
 EXPLANATION = (
     "Compares the patch table, the capture table and the restore table of the journaling wrappers as sets of "
@@ -700,6 +706,53 @@ def rule_r3_sigs_r5(ctx):
         ctx.check("R5", f"JournalEntry.{fname}: {t}", ok, je, je.node,
                   f"field {fname} may hold an arbitrary (strong) object reference", nontrivial=False,
                   construct=f"field {fname}: {t}")
+        framey = next((k for k in _FRAME_TYPES if k in t), None)
+        ctx.check("R5", f"JournalEntry.{fname}: no frame-bearing type", framey is None, je, je.node,
+                  f"field {fname} is declared `{t}`: a {framey} holds the live frame object, and through the frame's locals every IR object the callers had in "
+                  "hand - an entry then keeps those objects alive for as long as the journal exists (`ref` being weak does not help)", nontrivial=False,
+                  construct=f"field {fname} holds frames: {t}")
+    # … and what record() stores besides the object comes from frame-free sources: the values handed to the JournalEntry
+    # constructor (through the module's helpers) call nothing that returns live frames or tracebacks
+    jmod = repo.module(JR)
+    ctor = [c for c in calls_in(rec) if (dotted_of(c.func) or "").split(".")[-1] == "JournalEntry"]
+    ctx.require(bool(ctor), "Journal.record: the JournalEntry(...) call was not found")
+
+    def frame_source(e, depth=0, seen=None):
+        seen = seen if seen is not None else set()
+        for x in ast.walk(e):
+            if isinstance(x, ast.Call):
+                d = dotted_of(x.func) or ""
+                if d in _FRAME_CALLS or d.split(".")[-1] in {k.split(".")[-1] for k in _FRAME_CALLS if k.startswith(("inspect.", "sys._"))}:
+                    return x
+                g = jmod.functions.get(d) if "." not in d else None
+                if g is not None and g.key not in seen and depth < 4 and not isinstance(g.node, ast.Lambda):
+                    seen.add(g.key)
+                    for y in own_nodes(g.node):
+                        if isinstance(y, (ast.Return, ast.Assign)) and getattr(y, "value", None) is not None:
+                            r = frame_source(y.value, depth + 1, seen)
+                            if r is not None:
+                                return r
+            if isinstance(x, ast.Attribute) and x.attr in ("__traceback__", "tb_frame", "f_back", "f_locals", "gi_frame"):
+                return x
+            if isinstance(x, ast.Name) and depth < 4:
+                for a in own_nodes(rec.node):
+                    if isinstance(a, ast.Assign) and any(isinstance(t_, ast.Name) and t_.id == x.id for t_ in a.targets) and id(a) not in seen:
+                        seen.add(id(a))
+                        r = frame_source(a.value, depth + 1, seen)
+                        if r is not None:
+                            return r
+        return None
+
+    for c in ctor:
+        for k in c.keywords:
+            bad = frame_source(k.value)
+            ctx.check("R5", f"Journal.record: `{k.arg}` of the entry comes from a frame-free source", bad is None, rec, k.value,
+                      f"`{k.arg}={norm(k.value)[:50]}` reaches `{norm(bad)[:60] if bad is not None else ''}`, which returns live frame (or traceback) objects: every entry then strongly "
+                      "references the frames that were on the stack when it was recorded and, through their locals, the IR objects the callers held - after those functions "
+                      "return, the objects are never collected while the journal is alive, although `entry.ref` is weak",
+                      how="values of the JournalEntry(...) keywords in Journal.record, followed through locals and the module's helper functions × frame-returning calls "
+                          "(inspect.stack / currentframe / getouterframes / trace, sys._getframe, sys.exc_info, traceback.walk_stack / walk_tb) and frame attributes",
+                      construct=f"entry field {k.arg} holds live frames")
 
 
 def rule_r7(ctx):
